@@ -208,7 +208,12 @@ func riTokStr(ts []ri.Tok) string {
 
 var actionRe = regexp.MustCompile(`Action\d+\[`)
 
-func normActions(s string) string { return actionRe.ReplaceAllString(s, "Action[") }
+// normActions removes what the properties do not fix from a token list: the numbering of action
+// tokens and the name the implementation gives to <...> capture tokens.
+func normActions(s string) string {
+	s = actionRe.ReplaceAllString(s, "Action[")
+	return strings.ReplaceAll(s, "PegText[", "Capture[")
+}
 
 func execStr(evs []ri.Ev) []string {
 	out := []string{}
@@ -468,36 +473,65 @@ func (r *Runner) checkAST(c *caseCtx, v spec.VariantStatus, o *obs.Obs, ref *ri.
 	}
 }
 
-var msgRe = regexp.MustCompile(`(?s)^\s*parse error near (?:\x1B\[[0-9;]*m)?(\S+?)(?:\x1B\[[0-9;]*m)? \(line (-?\d+) symbol (-?\d+) - line (-?\d+) symbol (-?\d+)\):\n(".*")\n*$`)
+var intRe = regexp.MustCompile(`-?\d+`)
+var quotedRe = regexp.MustCompile(`"(?:[^"\\]|\\.)*"`)
 
-// checkMessage verifies the text of a parse error against the token it reports.
+// checkMessage verifies the text of a parse error against the token it reports. The wording is
+// not prescribed by the property, so the check is tolerant: (1) the token's rule name appears in
+// the message; (2) after removing that name, the integers of the message contain, in this order,
+// line and column of the begin offset and line and column of the end offset; (3) some Go-quoted
+// string in the message unquotes to input[begin:end].
 // An offset that points at a '\n' may be reported either as (line, lastcol+1) or with the
 // implementation's convention (line+1, 0); every other offset must match exactly.
 func checkMessage(msg string, t obs.Tok, w []rune) string {
-	m := msgRe.FindStringSubmatch(msg)
-	if m == nil {
-		return "message does not have the form `parse error near <rule> (line L symbol C - line L symbol C):\\n<quoted>`"
+	plain := ansiRe.ReplaceAllString(msg, "")
+	if !strings.Contains(plain, t.Name) {
+		return "message does not name rule " + t.Name
 	}
-	if m[1] != t.Name {
-		return "message names rule " + m[1] + ", token is " + t.Name
-	}
-	q, err := strconv.Unquote(m[6])
-	if err != nil || q != string(w[t.B:t.E]) {
-		return "quoted text is not input[begin:end] = " + strconv.Quote(string(w[t.B:t.E]))
-	}
-	for k, off := range []int{t.B, t.E} {
-		l, _ := strconv.Atoi(m[2+2*k])
-		s, _ := strconv.Atoi(m[3+2*k])
-		wl, wc := ri.LineCol(w, off)
-		okPos := l == wl && s == wc
-		if !okPos && off < len(w) && w[off] == '\n' && l == wl+1 && s == 0 {
-			okPos = true
-		}
-		if !okPos {
-			return fmt.Sprintf("%s position: offset %d is line %d column %d, message says line %d symbol %d", [...]string{"begin", "end"}[k], off, wl, wc, l, s)
+	want := string(w[t.B:t.E])
+	okQuote := false
+	for _, q := range quotedRe.FindAllString(plain, -1) {
+		if u, err := strconv.Unquote(q); err == nil && u == want {
+			okQuote = true
 		}
 	}
-	return ""
+	if !okQuote {
+		return "message does not quote input[begin:end] = " + strconv.Quote(want)
+	}
+	// integers outside quoted strings and outside the rule name
+	rest := quotedRe.ReplaceAllString(plain, " ")
+	rest = strings.ReplaceAll(rest, t.Name, " ")
+	var nums []int
+	for _, d := range intRe.FindAllString(rest, -1) {
+		v, _ := strconv.Atoi(d)
+		nums = append(nums, v)
+	}
+	type pos struct{ l, c int }
+	alts := func(off int) []pos {
+		l, c := ri.LineCol(w, off)
+		out := []pos{{l, c}}
+		if off < len(w) && w[off] == '\n' {
+			out = append(out, pos{l + 1, 0})
+		}
+		return out
+	}
+	for _, b := range alts(t.B) {
+		for _, e := range alts(t.E) {
+			need := []int{b.l, b.c, e.l, e.c}
+			k := 0
+			for _, v := range nums {
+				if k < 4 && v == need[k] {
+					k++
+				}
+			}
+			if k == 4 {
+				return ""
+			}
+		}
+	}
+	bl, bc := ri.LineCol(w, t.B)
+	el, ec := ri.LineCol(w, t.E)
+	return fmt.Sprintf("positions: begin offset %d is line %d column %d, end offset %d is line %d column %d; the message has the numbers %v", t.B, bl, bc, t.E, el, ec, nums)
 }
 
 var ansiRe = regexp.MustCompile(`\x1B\[[0-9;]*m`)
